@@ -26,6 +26,7 @@ mod c05_codec;
 mod c06;
 mod c06_view;
 mod c06codec;
+mod c06cmt;
 mod c01;
 mod c04;
 
